@@ -178,6 +178,8 @@ var Probes = []Probe{
 			}
 			return false, ""
 		}},
+	{ID: "P1", Props: []string{"C04"}, Input: "x := [1]; for a, b, c in x {}", WhatFail: "more than two names before 'in' were accepted with nil key/value and the compiler panicked (nil dereference)",
+		Run: expectNoPanic("x := [1]\nfor a, b, c in x {}\n")},
 	{ID: "O17", Props: []string{"C16", "C01"}, Input: "f := func(n) { if n == 0 { return 5 }; f(n-1) }; out := f(3)", WhatFail: "a statement-position self call followed by the implicit return is run as a tail call: f(3) yields 5, not undefined",
 		Run: expectGlobal("f := func(n) { if n == 0 { return 5 }; f(n-1) }\nout := f(3)\nok := is_undefined(out)\n", "ok", "(b 1)")},
 }
